@@ -54,7 +54,11 @@ Record oneshot := mkOne { os_options : Z; os_extra_sig : Z; os_extra_id : Z; os_
 Definition one_clear : oneshot := mkOne 0 0 0 false.
 
 (* a pending fixup of an unbound label: the section that references it, and whether it is linked to a relocation *)
-Record fixup := mkFix { fx_section : Z; fx_reloc : bool }.
+Record fixup := mkFix { fx_section : Z; fx_reloc : bool;
+                        fx_offset : Z; fx_rel : Z;       (* position of the displacement field in its section, inlined addend *)
+                        fx_bits : Z; fx_discard : Z }.   (* signed field width and discarded low bits of its OffsetFormat *)
+(* what an instruction hands to CodeHolder::new_fixup *)
+Record fixref := mkRef { fr_label : Z; fr_offset : Z; fr_rel : Z; fr_bits : Z; fr_discard : Z }.
 Inductive label := LUnbound (pend : list fixup) | LBound (sec off : Z).
 
 Record state := mkState {
@@ -126,10 +130,12 @@ Definition is_pow2_up_to (n m : Z) : bool := is_pow2 n && (n <=? m).
 
 (* CodeHolder::new_fixup for label `id`: chained to the label while it is unbound; a label that is already bound (to
    another section than the referencing one) gets a holder-level cross-section fixup — only the unresolved count grows *)
-Definition add_fixup (s : state) (id : Z) (linked : bool) : state :=
+Definition add_fixup (s : state) (r : fixref) (linked : bool) : state :=
+  let id := fr_label r in
   match nthZ (st_labels s) id with
   | Some (LUnbound p) =>
-      mkState (st_sizes s) (st_cur s) (updZ (st_labels s) id (LUnbound (mkFix (st_cur s) linked :: p)))
+      mkState (st_sizes s) (st_cur s)
+              (updZ (st_labels s) id (LUnbound (mkFix (st_cur s) linked (fr_offset r) (fr_rel r) (fr_bits r) (fr_discard r) :: p)))
               (st_fixups s + 1) (st_relocs s) (st_addrs s) (st_nodes s) (st_one s)
   | Some (LBound _ _) =>
       mkState (st_sizes s) (st_cur s) (st_labels s) (st_fixups s + 1) (st_relocs s) (st_addrs s) (st_nodes s) (st_one s)
@@ -148,7 +154,7 @@ Definition add_addrs (s : state) (n dsec : Z) : state :=
 (* verdict of validate+encode for one instruction in the current state *)
 Inductive enc_result :=
 | EncOk (nbytes : Z)                (* bytes committed by writer.done() *)
-        (fxl : option Z)            (* a fixup on this (unbound) label was created *)
+        (fxl : option fixref)       (* a fixup on this label was created (position, addend, format) *)
         (fxl_linked : bool)         (* ... linked to the relocation created by the same instruction *)
         (drelocs daddrs dsecs : Z)  (* new relocation entries / address-table entries / sections (.addrtab) *)
 | EncErr (e : Z).
@@ -174,10 +180,10 @@ Inductive cmd :=
 
 (* ---------------------------------------------------------------- the emit transaction *)
 (* success path of `_emit`: side effects, then reset_state(), then writer.done() *)
-Definition commit_inst (s : state) (n : Z) (fxl : option Z) (linked : bool) (dr da ds : Z) : state :=
+Definition commit_inst (s : state) (n : Z) (fxl : option fixref) (linked : bool) (dr da ds : Z) : state :=
   let s1 := add_relocs s dr in
   let s2 := add_addrs s1 da ds in
-  let s3 := match fxl with Some id => add_fixup s2 id linked | None => s2 end in
+  let s3 := match fxl with Some r => add_fixup s2 r linked | None => s2 end in
   add_bytes (clear_one s3) n.
 
 (* failure path (`Failed:` -> EmitterUtils::log_instruction_failed): nothing was committed (the writer's cursor is
@@ -216,6 +222,17 @@ Definition named_label_error (s : state) (namelen type parent : Z) (dup : bool) 
 Definition resolvable (sec : Z) (f : fixup) : bool := fx_reloc f || (fx_section f =? sec).
 Definition count_resolvable (sec : Z) (p : list fixup) : Z := lenZ (filter (resolvable sec) p).
 
+(* CodeWriterUtils::write_offset on a signed field: the displacement must be a multiple of 2^discard and fit `bits` bits
+   (theorem C14_a64_disp_codec / C17: exactly the displacements the offset encoder accepts) *)
+Definition fits_signed (bits v : Z) : bool := (- 2 ^ (bits - 1) <=? v) && (v <? 2 ^ (bits - 1)).
+Definition disp_fits (f : fixup) (to_offset : Z) : bool :=
+  let d := to_offset - fx_offset f + fx_rel f in
+  (d mod 2 ^ fx_discard f =? 0) && fits_signed (fx_bits f) (d / 2 ^ fx_discard f).
+(* the pending fixups of the label that binding it HERE would have to patch (same section, not relocation-linked) and
+   whose displacement does not fit: computed by the model, no longer reported by the code *)
+Definition unpatchable_count (s : state) (p : list fixup) : Z :=
+  lenZ (filter (fun f => negb (fx_reloc f) && (fx_section f =? st_cur s) && negb (disp_fits f (cur_size s))) p).
+
 Definition bind_assembler (h : handler) (s : state) (id patchfail : Z) : state * outcome :=
   match nthZ (st_labels s) id with
   | None => (clear_comment s, report h kInvalidLabel)
@@ -233,7 +250,7 @@ Definition bind_assembler_atomic (h : handler) (s : state) (id patchfail : Z) : 
   | None => (clear_comment s, report h kInvalidLabel)
   | Some (LBound _ _) => (clear_comment s, report h kLabelAlreadyBound)
   | Some (LUnbound p) =>
-      if 0 <? Z.min patchfail (count_resolvable (st_cur s) p) then (clear_comment s, report h kInvalidDisplacement)
+      if 0 <? unpatchable_count s p then (clear_comment s, report h kInvalidDisplacement)   (* `patchfail` is ignored *)
       else (clear_comment (mkState (st_sizes s) (st_cur s) (updZ (st_labels s) id (LBound (st_cur s) (cur_size s)))
                                    (st_fixups s - count_resolvable (st_cur s) p) (st_relocs s) (st_addrs s) (st_nodes s) (st_one s)), ok_out)
   end.
@@ -260,7 +277,7 @@ Definition embed_label_assembler (a : arch) (h : handler) (s : state) (id size :
       if negb (is_pow2_up_to sz 8) then (s, report h kInvalidOperandSize)
       else
         let s1 := add_relocs s 1 in
-        let s2 := match l with LUnbound _ => add_fixup s1 id true | LBound _ _ => s1 end in
+        let s2 := match l with LUnbound _ => add_fixup s1 (mkRef id 0 0 0 0) true | LBound _ _ => s1 end in
         (add_bytes s2 sz, ok_out)
   end.
 
@@ -272,7 +289,12 @@ Definition embed_label_delta_assembler (a : arch) (h : handler) (s : state) (id 
       let sz := if size =? 0 then reg_size a else size in
       if negb (is_pow2_up_to sz 8) then (s, report h kInvalidOperandSize)
       else match l, b with
-           | LBound s1 _, LBound s2 _ => if s1 =? s2 then (add_bytes s sz, ok_out) else (add_bytes (add_relocs s 1) sz, ok_out)
+           | LBound s1 o1, LBound s2 o2 =>
+               if s1 =? s2 then
+                 (* the delta is known: it must be representable as a signed value of `sz` bytes (HEAD 427430d) *)
+                 if (sz <? 8) && negb (fits_signed (8 * sz) (o1 - o2)) then (s, report h kInvalidDisplacement)
+                 else (add_bytes s sz, ok_out)
+               else (add_bytes (add_relocs s 1) sz, ok_out)
            | _, _ => (add_bytes (add_relocs s 1) sz, ok_out)
            end
   | _, _ => (s, report h kInvalidLabel)
@@ -296,7 +318,7 @@ Definition new_section (s : state) (align namelen : Z) : state * outcome :=
    not validated by the Builder *)
 (* the LabelNode of a label is unique: `node_active_mark` in the pending list records that it already is in the node list
    (labels are bound in the CodeHolder only when the Builder is serialized, so the holder still shows them unbound) *)
-Definition node_active_mark : list fixup := [mkFix (-1) false].
+Definition node_active_mark : list fixup := [mkFix (-1) false 0 0 0 0].
 
 Definition set_label (s : state) (id : Z) (l : label) : state :=
   mkState (st_sizes s) (st_cur s) (updZ (st_labels s) id l) (st_fixups s) (st_relocs s) (st_addrs s) (st_nodes s) (st_one s).
